@@ -304,6 +304,12 @@ func nameFree(r *core.Run, rule string, rels []string) {
 							bad = "the subject function itself"
 							return
 						}
+						if u, ok := o.(*ssa.UnOp); ok {
+							if fa, ok := u.X.(*ssa.FieldAddr); ok && strings.HasSuffix(core.TypeName(fa.X.Type()), "FunctionTopology") {
+								bad = "the analysed function (kept in the topology record)"
+								return
+							}
+						}
 						if pa, ok := o.(*ssa.Parameter); ok && d < 3 {
 							idx := -1
 							for i, q := range f.Params {
